@@ -5,12 +5,12 @@ tie:   T-cor - the extracted model and the real TreeSet/TreeMap run the same op 
        memory-manager configurations (each static_asserted to instantiate the intended classes); per op the index of every returned iterator, bounds/find/count on probe keys, forward and
        backward traversals, GetCount and the pre-order shape (leaf?/count/capacity) must be identical;
        node scripts: the real Node object driven directly, count byte / memPoolIndex / capacity / whole index table / raw slots /
-       child array compared byte for byte with the generated (Gen_NodeOpsI/C) + hand (IndexTable.v) node model;
+       child array compared byte for byte with the GENERATED node operations (Gen_NodeOpsI/C via NodeScript.v);
 oracle: a stable sorted std::vector twin inside the harness (independent of the model), structural checks of the real
        nodes (parent links, uniform depth, count <= capacity) and a counting memory manager (no leak after merges)."""
 import os
 
-GEN = ['gen_treenode.json', 'gen_node.json', 'gen_nodeops_i.json', 'gen_nodeops_c.json']
+GEN = ['gen_treenode.json', 'gen_node.json', 'gen_nodeops_i.json', 'gen_nodeops_c.json', 'gen_rebalance.json', 'gen_split.json']
 
 #   id: (maxCap, step, blockCount, lin, multi, key, value(''=set), real layout, crew, checkVersion, memory manager, traits)
 #   key kinds: int = trivially relocatable; str = nothrow move, not trivially relocatable (short keys inside the SSO buffer,
@@ -513,7 +513,7 @@ def replay(ctx, rp):
 
 def run(ctx):
     scale = 1 if ctx.quick() else 8
-    ctx.trusted += ['tools/cxx2coq.py + clang 14 JSON AST for GetSplitItemIndex / GetCapacity / pvGetLeafMemPoolIndex / Node::AcceptBackItem, Remove, pvAcceptBackItem, pvRemove, pvInitIndexes, GetCount of both layouts (validated through the shape and the node-level byte correspondence); inside the node operations the calls std::copy, std::copy_backward, ShiftNothrow and the item remover are skipped by the translator (hand model + byte tie)',
+    ctx.trusted += ['tools/cxx2coq.py + clang 14 JSON AST for GetSplitItemIndex / GetCapacity / pvGetLeafMemPoolIndex / Node::AcceptBackItem, Remove, pvAcceptBackItem, pvRemove, pvInitIndexes, GetCount of both layouts incl. the std::copy / std::copy_backward range copies on the index table and the child array (translated as a parallel range copy; the standard no-overlap preconditions of the two algorithms are assumed) / the decision prefix of TreeSet::pvRebalance / the AddSegment trace of Relocator::pvSplitNode; ASSUMED primitive: ItemTraits::ShiftNothrow(begin, shift) on the continuous item array rotates [begin, begin+shift] by one (its proof is C03); skipped: item creator / remover functors; validated through the shape and the node-level byte correspondence',
                     'extraction: ExtrOcamlBasic only (no Extract Constant; Extraction Blacklist for module names), OCaml 4.13.1, zarith for decimal I/O only',
                     'g++ 12 -std=c++17, harness reaches private members via #define private public',
                     'the hand-written model coq/BTreeModel.v is tied to TreeSet.h by differential execution only (T-cor), on the listed configurations']
